@@ -59,7 +59,7 @@ def _run_shard(work, binp, check, idx, scs, module="ResponderTrace.tla"):
             ln = (last or {}).get("ln", 0)
             lines = text.split("\n")
             nxt = ln + 1
-            while nxt <= len(lines) and lines[nxt - 1].split(" ")[0] in ("MARK", "CFG", "IF", "ADV", "FAULT", "CLEAR", ""):
+            while nxt <= len(lines) and lines[nxt - 1].split(" ")[0] in ("MARK", "CFG", "IF", "LIF", "ADV", "FAULT", "CLEAR", ""):
                 nxt += 1
             if last and last.get("e") == "req" and lines[ln - 1].startswith(("DRAIN", "LDRAIN")):
                 nxt = ln
@@ -162,7 +162,7 @@ def run_campaign(prop, check, scenarios, seed, work, binp, module="ResponderTrac
     return tot, viol, known
 
 
-def finish(prop, tier, seed, t0, level, check, tot, viol, known, mcs, scenarios, assumptions, extra_cov=None, rule=None, kind="responder"):
+def finish(prop, tier, seed, t0, level, check, tot, viol, known, mcs, scenarios, assumptions, extra_cov=None, rule=None, kind="responder", extra_viol=0):
     replays = []
     for i, (sc, why) in enumerate(viol[:8]):   # a handful of replays is enough to act on
         replays.append(vlib.write_replay(prop, check, sc, why, seed, i, kind=kind))
@@ -186,11 +186,11 @@ def finish(prop, tier, seed, t0, level, check, tot, viol, known, mcs, scenarios,
     }
     if extra_cov:
         cov.update(extra_cov)
-    vlib.write_evidence(prop, tier, seed, level, cov, assumptions, time.time() - t0, len(viol))
+    vlib.write_evidence(prop, tier, seed, level, cov, assumptions, time.time() - t0, len(viol) + extra_viol)
     for p in replays:
         print("VIOLATION property=%s replay=%s" % (prop, p))
     log("%s: %d scenarios, %d events validated, %d exercised, %d violation(s), %d known, %.1fs"
-        % (prop, len(scenarios), tot["events"], tot["exercised"], len(viol), len(known), time.time() - t0))
+        % (prop, len(scenarios), tot["events"], tot["exercised"], len(viol) + extra_viol, len(known), time.time() - t0))
     return 1 if viol else 0
 
 
@@ -257,7 +257,7 @@ def automata_check(prop, tier, seed, t0, check, scenarios, mc=(), level="model_c
 
 # =========================================================================== properties
 def c01(prop, tier, seed, t0):
-    return responder_check(prop, tier, seed, t0, {"C02"}, campaigns.campaign_c01(seed, tier), level="exploration",
+    return responder_check(prop, tier, seed, t0, {"C02"}, campaigns.campaign_c01(seed, tier), level="exploration", mc=[("BoundsMC.tla", "BoundsMC.cfg")],
                            assumptions=["memory safety and UB-freedom are observed by ASan/UBSan (-fno-sanitize-recover) on the behaviours the "
                                         "generators produce, not proved; the bounds logic is model-checked (ResponderMC ReadExtent)",
                                         "every frame goes through all three receive entry points: derive_session_event, parseFrame, "
@@ -287,7 +287,28 @@ def c05(prop, tier, seed, t0):
 
 
 def c04(prop, tier, seed, t0):
-    return responder_check(prop, tier, seed, t0, {"C04"}, campaigns.campaign_c04(seed, tier))
+    # first sentence: the core encodes what the platform layer supplies (verification port);
+    # second sentence: the real Linux platform layer derives it from the interface record
+    work = vlib.Work(prop)
+    binp = vlib.build_responder("asan")
+    scs = campaigns.campaign_c04(seed, tier)
+    tot, viol, known = run_campaign(prop, {"C04"}, scs, seed, work, binp)
+    lscs = campaigns.campaign_c04_linux(seed, tier)
+    lbin = vlib.build_linuxport("asan")
+    tot2, viol2, known2 = run_campaign(prop, {"C04"}, lscs, seed, work, lbin, module="LinuxPort.tla")
+    for k in tot:
+        tot[k] += tot2[k]
+    extra = [vlib.write_replay(prop, {"C04"}, sc, why, seed, 100 + i, kind="linuxport") for i, (sc, why) in enumerate(viol2[:8])]
+    for p in extra:
+        print("VIOLATION property=%s replay=%s" % (prop, p))
+    rc = finish(prop, tier, seed, t0, "model_checking", {"C04"}, tot, viol, known + known2, [], scs + lscs, ASSUME_COMMON + [
+        "second sentence: os/linux/lltd_port.c of the working tree is linked as the port with sendto/getifaddrs/freeifaddrs/gethostname/nanosleep/clock_gettime wrapped; "
+        "TLC computes LinuxPort!Derive(record) and requires the Hello captured at sendto to carry exactly those attributes",
+        "the performance-counter frequency and QoS characteristics are required to be present with their lengths and constant across the Hellos of an interface"],
+        extra_cov={"linux_port_scenarios": len(lscs), "violations_linux_port": len(viol2)}, extra_viol=len(viol2))
+    if rc == 0 and not viol2:
+        work.cleanup()
+    return 1 if (rc or viol2) else 0
 
 
 def c06(prop, tier, seed, t0):
@@ -312,7 +333,12 @@ def c09(prop, tier, seed, t0):
 
 
 def c10(prop, tier, seed, t0):
-    return responder_check(prop, tier, seed, t0, {"C10"}, campaigns.campaign_c10(seed, tier))
+    work0 = vlib.Work(prop + "n")
+    pre = [must_violate(work0, "NetworkMC.tla", "NetworkMC-mapper.cfg", "Invariant PeerObserves is violated"),
+           must_violate(work0, "NetworkMC.tla", "NetworkMC-bcast.cfg", "Invariant PeerObserves is violated")]
+    work0.cleanup()
+    return responder_check(prop, tier, seed, t0, {"C10"}, campaigns.campaign_c10(seed, tier), mc=[("NetworkMC.tla", "NetworkMC-dst.cfg")],
+                           extra_cov={"network_model_refuted_alternatives": pre})
 
 
 def c18(prop, tier, seed, t0):
@@ -354,7 +380,7 @@ def c18(prop, tier, seed, t0):
         "constructors: init_automata_mapping/session/enumeration and session_table_create with allocation k = 0..3 failing",
         "an MTU getter failure is only injected on interfaces whose MTU is the documented fallback 1500"],
         extra_cov={"fault_free_counts": {k: list(v) for k, v in sorted(counts.items())}, "constructor_plans": len(ctor),
-                   "violations_constructors": len(viol2)})
+                   "violations_constructors": len(viol2)}, extra_viol=len(viol2))
     if rc == 0 and not viol2:
         work.cleanup()
     return 1 if (rc or viol2) else 0
@@ -704,6 +730,9 @@ def replay(path):
     elif kind == "automata":
         binp = vlib.build_automata("asan")
         bad, why = confirm(work, binp, check, sc, module="AutomataTrace.tla")
+    elif kind == "linuxport":
+        binp = vlib.build_linuxport("asan")
+        bad, why = confirm(work, binp, check, sc, module="LinuxPort.tla")
     elif kind == "registry-sched":
         binp = vlib.build_registry("asan")
         threads = int([l for l in body if l.startswith("THREADS")][0].split()[1])
